@@ -184,6 +184,39 @@ def foo(n: size, x: R[n]):
     for i in seq(0, n):
         x[i] = t[i + 4] + u[i + 8] + v[4 * i + 3]
 """),
+    ("config_written_only_in_else", """
+@config
+class CfgE:
+    i: index
+    j: index
+
+@proc
+def seti(k: index):
+    CfgE.i = k
+
+@proc
+def foo(n: size, x: R[4], y: R[4]):
+    CfgE.i = 0
+    CfgE.j = 0
+    if n < 3:
+        pass
+    else:
+        CfgE.i = 1
+    CfgE.i = 0
+    if CfgE.i == 0:
+        x[0] = 1.0
+    if n < 2:
+        y[1] = 1.0
+    else:
+        if n < 3:
+            seti(2)
+        else:
+            CfgE.j = 3
+    CfgE.j = 0
+    if CfgE.j == 0:
+        y[0] = 2.0
+    CfgE.i = 0
+"""),
     ("mult_dim_transposes", """
 @proc
 def foo(n: size, m: size, a: [R][n, m], b: R[n, m], c: R[4]):
